@@ -1,4 +1,8 @@
 """C13 — incremental analysis equals from-scratch analysis after any edit history."""
+import os
+import random
+import re
+import subprocess
 import sys
 
 import vlib
@@ -11,6 +15,7 @@ SPEC = {
         "quick": {"cases": 250, "extra": {"steps": 25}},
         "thorough": {"cases": 4000, "extra": {"steps": 35}},
     },
+    "search_factor": 4,
     # The compared `impl`/`m` lines are the three file-set views of the Database (verif_views hook), i.e.
     # internal bookkeeping, not the property's observables: a disagreement breaks the tie between the
     # proved model and the code but is not by itself a failing input.  Failing inputs come from the
@@ -42,6 +47,10 @@ SPEC = {
         "(prepare_salsa_project) is proved to be a no-op on every reachable state",
         "Rust harness vharness c13: generator, canonical dump of answers, PartialEq of the real answer types, "
         "catch_unwind; the final texts of a history are tracked by the harness, not read back from the database",
+        "the fresh database of the oracle lives in the harness process: state outside the Database object would be "
+        "shared with it. Guarded by (a) a fail-closed scan that trust-hir/trust-syntax contain no static with interior "
+        "mutability / thread_local!, (b) a sample of answers (60 quick / 500 thorough) recomputed by `vharness c13 "
+        "--freshq` in a NEW process each and compared by hash",
     ],
     "assumptions": [
         "operations on one Database are sequential (set/remove take &mut self; concurrent readers are not modelled)",
@@ -65,7 +74,8 @@ MANIFEST = {
                   "later answer), c13_lazy_sync_only_when_empty. Each run executes the model and the real Database on "
                   "the same generated histories and compares the hook views after every operation, and judges every "
                   "real answer (diagnostics, analysis, symbol table, expression type, expression id) against a "
-                  "brand-new Database loaded with the final texts, against a repeated query, and for panics.",
+                  "brand-new Database loaded with the final texts (in random order), against a repeated query, and for "
+                  "panics; a sample of the answers is recomputed in a new process per query.",
     "level_note": "PARTIAL: the queries themselves (parser, symbol collection, cross-file import, type checker) and "
                   "salsa's memoisation are NOT modelled: answers are an uninterpreted function of what the model says "
                   "a query reads. That 'answers equal fresh answers', 'no query panics for any file contents' and "
@@ -137,8 +147,95 @@ def _history(c, upto):
     return out
 
 
+_STATEFUL_STATIC = re.compile(
+    r"^\s*(pub(\([^)]*\))?\s+)?static\s+(mut\s+)?\w+\s*:[^=;]*"
+    r"\b(Mutex|RwLock|Atomic\w*|OnceLock|OnceCell|LazyLock|LazyCell|Lazy|RefCell|Cell)\b"
+    r"|^\s*(pub(\([^)]*\))?\s+)?static\s+mut\b|\bthread_local!\s*[({]|\blazy_static!\s*[({]")
+
+
+def _crates_root():
+    text = open(os.path.join(vlib.HARNESS, "Cargo.toml"), encoding="utf-8").read()
+    m = re.search(r'^trust-hir\s*=\s*\{\s*path\s*=\s*"([^"]+)"', text, re.M)
+    if not m:
+        raise RuntimeError("harness/Cargo.toml does not name the trust-hir path")
+    return os.path.dirname(m.group(1).rstrip("/"))
+
+
+def purity_scan():
+    """The fresh-database oracle runs in the same process as the database under test, so it shares any
+    process-global mutable state of the analysis crates.  Today there is none (no `static` with interior
+    mutability, no `thread_local!`); this scan keeps that assumption checked (fail closed)."""
+    root = _crates_root()
+    hits = []
+    for crate in ("trust-hir", "trust-syntax"):
+        src = os.path.join(root, crate, "src")
+        if not os.path.isdir(src):
+            raise RuntimeError(f"{src} not found")
+        for dirpath, _, files in os.walk(src):
+            for fn in sorted(files):
+                if not fn.endswith(".rs"):
+                    continue
+                path = os.path.join(dirpath, fn)
+                for ln, line in enumerate(open(path, encoding="utf-8", errors="replace"), 1):
+                    if line.lstrip().startswith("//"):
+                        continue
+                    if _STATEFUL_STATIC.search(line):
+                        hits.append(f"{os.path.relpath(path, root)}:{ln}: {line.strip()[:120]}")
+    return hits
+
+
+def cross_process_sample(ctx, k):
+    """Sampled answers of the long-running harness process (hash `h=` of the canonical dump) against a
+    NEW process that loads the final texts into a new Database and asks the same query."""
+    total = 0
+    for c in ctx["cases"]:
+        if c.lines and c.lines[0] == "stream db":
+            total += sum(1 for l in c.lines if l.startswith("#o ") and " panic=0 " in l)
+    if total == 0:
+        return 0, []
+    rnd = random.Random(ctx["seed"])
+    chosen = set(rnd.sample(range(total), min(k, total)))
+    fails, idx, asked = [], 0, 0
+    for c in ctx["cases"]:
+        if not c.lines or c.lines[0] != "stream db":
+            continue
+        texts, finals = {}, {}
+        for i, l in enumerate(c.lines):
+            w = l.split()
+            if not w:
+                continue
+            if w[0] == "text":
+                texts[w[1]] = w[2]
+            elif w[0] == "set":
+                finals[w[1]] = w[2]
+            elif w[0] == "rm":
+                finals.pop(w[1], None)
+            elif w[0] == "#o" and " panic=0 " in l:
+                if idx in chosen:
+                    req = os.path.join(vlib.WORK, "C13.freshq.txt")
+                    with open(req, "w") as f:
+                        f.write(f"{w[1]} {w[2]} {w[3]}\n")
+                        for fid in sorted(finals, key=int):
+                            f.write(f"{fid} {texts[finals[fid]]}\n")
+                    p = subprocess.run([vlib.VHARNESS, "c13", "--freshq", req], stdout=subprocess.PIPE,
+                                       stderr=subprocess.PIPE, text=True, timeout=120)
+                    asked += 1
+                    got = p.stdout.strip()
+                    want = "h=" + _fields(l).get("h", "?")
+                    if p.returncode != 0 or got != want:
+                        fails.append({"case": c.n, "seed": ctx["seed"], "tier": ctx["tier"],
+                                      "layer": "Database (new process)",
+                                      "what": "answer of the long-running process differs from that of a new process "
+                                              "with a new database loaded with the final texts",
+                                      "query": l[3:], "history": _history(c, i),
+                                      "answers": {"long_running_process": want, "new_process": got or p.stderr[-300:]}})
+                idx += 1
+    return asked, fails
+
+
 def extra(ctx):
     fails, known_hits, n_o, n_p = [], [], 0, 0
+    failures = []
     proj = {"queries": 0, "with_permuted_ids": 0, "differs_from_fresh_same_ids": 0,
             "differs_from_fresh_key_order": 0}
     witness_reproduced = False
@@ -191,10 +288,23 @@ def extra(ctx):
                 fails.append({"case": c.n, "seed": ctx["seed"], "tier": ctx["tier"], "layer": "Project",
                               "what": "answers after remove+re-add differ from a fresh project loaded in key order "
                                       "(not listed in known_findings.json)",
-                              "query": l[3:], "history": _history(c, i)})
+                              "query": l[3:], "history": _history(c, i), "answers": _details(c.lines[i + 1: i + 6])})
+    # the in-process oracle's blind spot: state outside the Database object
+    try:
+        hits = purity_scan()
+        if hits:
+            failures.append("assumption of the in-process fresh-database oracle broken: process-global mutable state in "
+                            "the analysis crates (a fresh Database in the same process would share it): " + "; ".join(hits[:5]))
+    except Exception as e:  # fail closed
+        hits = None
+        failures.append(f"purity scan could not run: {e}")
+    asked, xfails = cross_process_sample(ctx, 60 if ctx["tier"] == "quick" else 500)
+    fails += xfails
     cov = {"oracle_queries_database_layer": n_o, "oracle_queries_project_layer": n_p, "project_layer": proj,
-           "project_witness_reproduced": witness_reproduced}
-    return {"coverage": cov, "oracle_failures": fails, "known": known}
+           "project_witness_reproduced": witness_reproduced,
+           "oracle_queries_rechecked_in_a_new_process": asked,
+           "stateful_statics_in_trust_hir_and_trust_syntax": hits}
+    return {"coverage": cov, "oracle_failures": fails, "known": known, "failures": failures}
 
 
 def replay(obj):
